@@ -4,6 +4,7 @@ import (
 	"context"
 	"fmt"
 	"math/rand/v2"
+	"os"
 	"sync"
 	"testing"
 	"time"
@@ -251,7 +252,7 @@ func c08LoopGen(r *rand.Rand) *sim.Scn {
 }
 
 func c08Gen(r *rand.Rand, tier string) *sim.Scn {
-	if r.IntN(12) == 0 {
+	if r.IntN(12) == 0 && os.Getenv("VERIF_NO_WHOLE") == "" {
 		return c08LoopGen(r)
 	}
 	s := &sim.Scn{Cfg: map[string]int64{"ih": 1, "limit": 1 + r.Int64N(8)}}
